@@ -258,7 +258,11 @@ def gen_scenario(rng, prof=None, force_selflock=None):
         # amplitude limited like the spring term C: the stiffness P*2*pi*fp stays below 0.02 J_eq / dt^2 (gentle dynamics, no
         # amplification of rounding differences between two writings of the same scenario)
         load['P'] = sig(min(rng.uniform(0.05, 0.4) * T_out, 0.02 * nums['J_eq'] / dt_si ** 2 / (2 * math.pi * load['fp'])), 3)
-        load['lib_trig'] = rng.random() < 0.75
+        if load['P'] < 0.02 * T_out:
+            # a cam term that small would make the whole load a rounding-sensitive quantity (sine of a large angle): left out
+            load.pop('P'), load.pop('fp')
+        if 'P' in load:
+            load['lib_trig'] = rng.random() < 0.75
     if rng.random() < 0.25:
         load['step_t'] = dt_si * (rng.randint(1, max(1, n - 1)) + 0.5)       # half-way between two instants: never a rounding matter
         load['step_A'] = sig(rng.uniform(-2, 2) * T_out, 3)
@@ -273,7 +277,7 @@ def gen_scenario(rng, prof=None, force_selflock=None):
         spd = rq(rng, 'AngularSpeed', 1e-3 * w_out, 1.5 * w_out, sign=rng.choice([-1, 1]))
         if rng.random() < 0.3:
             spd = Q('AngularSpeed', 0.0, spd['u'])
-        elif rng.random() < 0.07:
+        elif rng.random() < p.get('p_noload_start', 0.07):
             # the output starts exactly at the speed at which the motor runs at its no-load speed (zero driving torque at D = 1)
             m_ = spec['motor']
             spd = Q('AngularSpeed', m_['w0']['v'] / nums['G'], m_['w0']['u'])
